@@ -14,12 +14,17 @@ import collections
 from core import op_place, op_const, Call, Missing
 
 
+OP_ASSIGN = {'ops::AddAssign::add_assign': 'std::ops::Add::add', 'ops::SubAssign::sub_assign': 'std::ops::Sub::sub',
+             'ops::MulAssign::mul_assign': 'std::ops::Mul::mul', 'ops::DivAssign::div_assign': 'std::ops::Div::div',
+             'ops::RemAssign::rem_assign': 'std::ops::Rem::rem'}
+
+
 class TooManyPaths(Exception):
     pass
 
 
 class Event:
-    __slots__ = ('kind', 'site', 'name', 'fn', 'args', 'dest', 'lv', 'term', 'line', 'bb', 'value', 'call')
+    __slots__ = ('kind', 'site', 'name', 'fn', 'args', 'dest', 'lv', 'term', 'line', 'bb', 'value', 'call', 'pre')
 
     def __init__(self, kind, **kw):
         for s in self.__slots__:
@@ -392,10 +397,23 @@ class SymEx:
                 site = '%d.%d' % (bb, st.visits[bb])
                 args = tuple(self.operand(st, a) for a in t['args'])
                 name = call.name or show(self.operand(st, t['func']))
-                ev = Event('call', site=site, name=name, fn=call.fn, args=args, line=call.line, bb=bb, call=call)
+                pre = tuple(st.read(a[1][0], a[1][1]) if a[0] == 'mref' else a for a in args)
+                ev = Event('call', site=site, name=name, fn=call.fn, args=args, line=call.line, bb=bb, call=call, pre=pre)
                 st.events.append(ev)
+                # x op= y on a `&mut` place: model as x := op(x, y) (the trait's contract)
+                modelled = False
+                gen = (call.fn or {}).get('def', '')
+                for opn in OP_ASSIGN:
+                    if gen.endswith(opn) and len(args) == 2 and args[0][0] == 'mref':
+                        lv = args[0][1]
+                        old = st.read(lv[0], lv[1])
+                        newv = ('call', OP_ASSIGN[opn], (old, args[1]), site)
+                        st.write(lv[0], lv[1], newv)
+                        if lv[0][0] != 'local':
+                            st.events.append(Event('write', lv=lv, term=newv, line=call.line, bb=bb))
+                        modelled = True
                 # callee may write through every &mut it receives
-                for a, aop in zip(args, t['args']):
+                for a, aop in zip(args, t['args']) if not modelled else []:
                     if a[0] == 'mref':
                         st.havoc(a[1][0], a[1][1], site)
                     else:
